@@ -21,7 +21,7 @@ pub fn info() -> PropInfo {
     PropInfo {
         id: "C11",
         level: "exploration",
-        rule: "generated trees: directories '', a, a/b, a/b/c, z and a directory named d.txtpp; sources in the three name shapes crossed with stems containing 0, 1 and 2 dots (s.txt.txtpp, s.txtpp.md, s.txtpp, p.q.txt.txtpp, p.q.txtpp.md, p.q.txtpp, u.v.w.txtpp.x) and a non-ASCII name; look-alikes that are not sources (txtpp, .txtpp, n.txtpp.b.c, x.txtppx); in a quarter of the trees a symbolic link to a source in another directory and/or a symbolic link to a directory (a linked source counts as its target: processed once, output beside the target); some sources include the output of a source in another directory (dependency). Input lists of 1-3 entries from {directories (plain, ./, dir/../dir, absolute), sources by .txtpp name, by output name, with ./ or absolute, duplicates and aliases of the same file, missing targets, look-alike names} x recursive on/off x (process cwd == base | cwd below base | cwd unrelated '/' | base given relative to the cwd) through the library entry, and a CLI sample with relative inputs. Observation: build from an output-free tree (which outputs appear, bytes vs model, marker count per source), clean over planted outputs for every source (which disappear), verify after a full build (marker count per source). Expected set = selected sources (+ transitive .txtpp dependencies for build and verify); a missing target must fail the run. Non-trivial = the selection is a proper non-empty subset of the sources or an alias/duplicate/missing target is involved; distinct = distinct (tree, inputs, flags, mode).",
+        rule: "generated trees: directories '', a, a/b, a/b/c, z and a directory named d.txtpp; sources in the three name shapes crossed with stems containing 0, 1 and 2 dots (s.txt.txtpp, s.txtpp.md, s.txtpp, p.q.txt.txtpp, p.q.txtpp.md, p.q.txtpp, u.v.w.txtpp.x) and a non-ASCII name; look-alikes that are not sources (txtpp, .txtpp, n.txtpp.b.c, x.txtppx); in a quarter of the trees a symbolic link to a source in another directory and/or a symbolic link to a directory (a linked source counts as its target: processed once, output beside the target); some sources include the output of a source in another directory (dependency). Input lists of 1-3 entries from {directories (plain, ./, dir/../dir, absolute), sources by .txtpp name, by output name, with ./ or absolute, duplicates and aliases of the same file, missing targets, look-alike names} x recursive on/off x (process cwd == base | cwd below base | cwd unrelated '/' | base given relative to the cwd) through the library entry, and a CLI sample with relative inputs. Observation: build from an output-free tree (which outputs appear, bytes vs model, marker count per source), clean over planted outputs for every source (which disappear), verify after a full build (marker count per source). Expected set = selected sources (+ transitive .txtpp dependencies for build and verify); a missing target must fail the run. Non-trivial = the selection is a proper non-empty subset of the sources or an alias/duplicate/missing target is involved; distinct = distinct (tree, inputs, flags, mode). Later additions: up to three dependency includes per source, verbatim includes of another source's .txtpp file (no dependency), empty sources, a plainly named link to a source elsewhere (not a source of that directory), non-UTF-8 file and directory names (rawnames scenario), special layouts (page.html.txtpp + page.txtpp.html side by side, directory inputs outside the base given as ../docs or absolute, the empty input list).",
         assumptions: &["D10: every output path has exactly one source; symbolic links only in the two shapes listed in the rule", "marker commands sit after the dependency directives (two-pass execution before the first dependency is documented behaviour)"],
         floor: (400, 6000),
         shards: (16, 16),
